@@ -53,12 +53,122 @@ class Proxy:
     def note(self, t):
         self.chk.note(t)
 
+RT_TYPES = ["Bool", "Int32", "UInt32", "Float32", "Int323", "Float322", "Float324", "Float322x2", "Enum", "Struct"]
+RT_MEMBERS = ["x", "y", "xy", "yx", "xx", "zyx", "xyzw", "wzyx", "_m00", "_m01", "_m10", "_m01_m10", "_11_22", "_12", "_m00_m01_m10_m11", "a", "v"]
+_RT = {}
+
+
+def _rt():
+    import exportmodel as XM
+    if "rt" not in _RT:
+        _RT["rt"] = XM.RoundTrip(_RT["facts"], "rssl_hlsl")
+    return _RT["rt"]
+
+
+def _rt_task(item):
+    """-> (family, readable, cases, round trips, skipped, first failure, unreadable reason)"""
+    import elabmodel as EM
+    import interp as I
+    kind, arg = item
+    rt = _rt()
+    el = rt.el
+    ls = [el.ety(t, m, vt) for t in RT_TYPES if t in el.u.names for m, vt in ((0, "Lvalue"), (1, "Lvalue"))]
+    rs = [el.ety(t, 0, "Lvalue") for t in ("Int32", "Float32", "Float322", "Bool", "UInt32") if t in el.u.names]
+    cases = trips = skipped = 0
+    bad = None
+
+    def one(what, res, operands):
+        nonlocal cases, trips, skipped, bad
+        cases += 1
+        if res[0] == "unreadable":
+            return res[1]
+        if res[0] != "Ok" or res[2] is None:
+            return None
+        r = rt.check(what, res[1], res[2], operands)
+        if r is None:
+            trips += 1
+        elif r[0] == "skip":
+            skipped += 1
+        elif r[0] == "unreadable":
+            return r[1]
+        else:
+            bad = bad or r[1]
+        return None
+    if kind == "binop":
+        for l in ls:
+            for r in rs:
+                u = one("%s %s %s" % (el.describe(l), arg, el.describe(r)), el.run_binop(arg, l, r), {"L": l, "R": r})
+                if u:
+                    return (kind + "/" + arg, False, cases, trips, skipped, bad, u)
+    elif kind == "unop":
+        for l in ls:
+            u = one("%s applied to %s" % (arg, el.describe(l)), el.run_unop(arg, l), {"L": l})
+            if u:
+                return (kind + "/" + arg, False, cases, trips, skipped, bad, u)
+    elif kind == "ternary":
+        c = el.ety(arg, 0, "Lvalue")
+        for l in ls:
+            for r in rs:
+                u = one("(%s) ? %s : %s" % (el.describe(c), el.describe(l), el.describe(r)), el.run_ternary(c, l, r), {"C": c, "L": l, "R": r})
+                if u:
+                    return (kind + "/" + arg, False, cases, trips, skipped, bad, u)
+    elif kind == "access":
+        for m, vt in ((0, "Lvalue"), (1, "Lvalue")):     # (the model writes an rvalue operand as a cast of the variable: not a fixpoint by construction)
+            comp = el.ety(arg, m, vt)
+            for sw in RT_MEMBERS:
+                u = one("%s.%s" % (el.describe(comp), sw), el.run_expr(I.Enum("Expression", "Member", {"0": EM.located("L"), "1": EM.member_path(sw)}), {"L": comp}), {"L": comp})
+                if u:
+                    return (kind + "/" + arg, False, cases, trips, skipped, bad, u)
+            for it in ("Int32", "UInt32", "Float32"):
+                ie = el.ety(it, 0, "Lvalue")
+                u = one("%s[%s]" % (el.describe(comp), el.describe(ie)), el.run_expr(I.Enum("Expression", "ArraySubscript", {"0": EM.located("L"), "1": EM.located("R")}), {"L": comp, "R": ie}),
+                        {"L": comp, "R": ie})
+                if u:
+                    return (kind + "/" + arg, False, cases, trips, skipped, bad, u)
+    return (kind + "/" + arg, True, cases, trips, skipped, bad, None)
+
+
+def rule_refix(chk, prefix="C04.refix"):
+    """Expression-level fixpoint of DirectX HLSL export (exportmodel.py): every typed expression the typer builds for the
+    operators, the ternary, member / swizzle / matrix-swizzle / subscript accesses over a matrix of operand types is
+    exported by generate_expression and elaborated again by parse_expr_unchecked - it must come back as the same IR
+    node with the same type. Both functions are walked by the reader; nothing is executed."""
+    import multiprocessing as mp
+    import os
+    f = chk.facts
+    _RT.clear()
+    _RT["facts"] = f
+    rt = _rt()
+    if not rt.gen or not rt.parse or not rt.el.binop:
+        chk.note("%s: generate_expression / parse_expr_unchecked not found" % prefix)
+        return False
+    binops = f.variants("ast_expressions::BinOp", "rssl_ast") or []
+    unops = [u for u in (f.variants("ast_expressions::UnaryOp", "rssl_ast") or []) if u not in ("Dereference", "AddressOf")]
+    comps = [t for t in ("Float32", "Int32", "Float322", "Float324", "Int323", "Float322x2", "Int324x4", "Struct", "Float32[4]", "const Float324[2]") if t in rt.el.u.names]
+    items = [("binop", b) for b in binops] + [("unop", u) for u in unops] + [("ternary", t) for t in ("Bool", "Int32")] + [("access", c) for c in comps]
+    n = min(len(items), int(os.environ.get("VERIF_JOBS", "0") or 0) or (os.cpu_count() or 2))
+    if n <= 1:
+        res = [_rt_task(x) for x in items]
+    else:
+        with mp.get_context("fork").Pool(n) as pool:
+            res = pool.map(_rt_task, items, chunksize=1)
+    if not all(r[1] for r in res):
+        chk.unreadable(prefix + "/readable", "HLSL generate_expression / parse_expr_unchecked on the expression model", [(r[0], r[6]) for r in res if not r[1]][:1], where(rt.gen))
+        return False
+    for fam, _ok, cases, trips, skipped, bad, _u in sorted(res):
+        chk.ob("%s/%s" % (prefix, fam), bad is None, "%d typed expressions: %d exported and read back as the same node and type (%d refused by the exporter)" % (cases, trips, skipped)
+               if bad is None else bad, where(rt.gen), sample={"family": fam, "cases": cases, "round_trips": trips})
+    chk.floor(prefix.replace(".refix", ".floor") + "/refix-round-trips", sum(r[3] for r in res), 1000, "expressions exported and read back", where(rt.gen))
+    return True
+
+
 
 def run(chk):
     f = chk.facts
     rule_inlang(chk)
     rule_attr(chk)
     rule_reg(chk)
+    rule_refix(chk)
     import c09
     import c15
     import interp as I
